@@ -461,6 +461,190 @@ fn run_e2e(query: &str, doc: &str) -> R<String> {
     Ok(out)
 }
 
+fn sx_doc(v: &Value) -> String {
+    match v {
+        Value::Null => "null".into(),
+        Value::Bool(b) => format!("(b {})", *b as u8),
+        Value::Number(n) => {
+            if let Some(i) = n.as_i64() {
+                format!("(i {})", i)
+            } else if let Some(u) = n.as_u64() {
+                format!("(i {})", u)
+            } else {
+                f64_parts(n.as_f64().unwrap_or(0.0)).replacen("(flt", "(f", 1)
+            }
+        }
+        Value::String(s) => sx_str(s),
+        Value::Array(a) => format!("(a{})", a.iter().map(|x| format!(" {}", sx_doc(x))).collect::<String>()),
+        Value::Object(m) => format!(
+            "(o{})",
+            m.iter().map(|(k, x)| format!(" ({} {})", sx_str(k), sx_doc(x))).collect::<String>()
+        ),
+    }
+}
+
+/// reference(path): which node (by address); reference_mut(path): the document after `*v = repl`
+fn run_ref(doc: &str, path: &str, repl: &str) -> R<String> {
+    let d = doc_of(&sexp::parse(doc)?)?;
+    let p = cps_to_string(&sexp::parse(path)?)?;
+    let r = doc_of(&sexp::parse(repl)?)?;
+    let mut index = HashMap::new();
+    index_doc(&d, "$".to_string(), &mut index);
+    let found = d.reference(p.clone()).map(|v| {
+        index
+            .get(&(v as *const Value as usize))
+            .cloned()
+            .unwrap_or_else(|| "FOREIGN".to_string())
+    });
+    let mut d2 = d.clone();
+    let wrote = match d2.reference_mut(p.clone()) {
+        Some(v) => {
+            *v = r;
+            true
+        }
+        None => false,
+    };
+    Ok(match (found, wrote) {
+        (Some(loc), true) => format!("OK\t{}\t{}", loc, sx_doc(&d2)),
+        (None, false) => format!("NONE\t-\t{}", sx_doc(&d2)),
+        (a, b) => format!("MIXED\t{:?}\t{}", a, b),
+    })
+}
+
+#[allow(dead_code)]
+fn assert_send_sync<T: Send + Sync>() {}
+
+type Obs = Result<Vec<(usize, String)>, ()>;
+fn observe(doc: &Value, q: &str) -> Obs {
+    match doc.query_with_path(q) {
+        Ok(v) => Ok(v.into_iter().map(|r| (r.clone().val() as *const Value as usize, r.path())).collect()),
+        Err(_) => Err(()),
+    }
+}
+fn observe_prepared(doc: &Value, q: &JpQuery) -> Obs {
+    match js_path_process(q, doc) {
+        Ok(v) => Ok(v.into_iter().map(|r| (r.clone().val() as *const Value as usize, r.path())).collect()),
+        Err(_) => Err(()),
+    }
+}
+
+/// C12: histories, repetitions, parse-once, concurrent use of one parsed query and one document
+#[cfg(not(feature = "sendsync"))]
+fn run_hist(_ops: &str, _seed: &str) -> R<String> {
+    Err("HIST needs the harness built with --features sendsync".into())
+}
+
+#[cfg(feature = "sendsync")]
+fn run_hist(ops: &str, seed: &str) -> R<String> {
+    // the parsed query and the error type can be shared between threads (compile-time fact)
+    assert_send_sync::<JpQuery>();
+    assert_send_sync::<jsonpath_rust::parser::errors::JsonPathError>();
+    let ops = sexp::parse(ops)?;
+    let items = list(&ops)?;
+    let mut qs: Vec<String> = vec![];
+    let mut docs: Vec<std::sync::Arc<Value>> = vec![];
+    for it in &items[1..] {
+        let kv = list(it)?;
+        qs.push(cps_to_string(&kv[0])?);
+        docs.push(std::sync::Arc::new(doc_of(&kv[1])?));
+    }
+    let n = qs.len();
+    let snapshot: Vec<Value> = docs.iter().map(|d| (**d).clone()).collect();
+    let baseline: Vec<Obs> = (0..n).map(|i| observe(&docs[i], &qs[i])).collect();
+    // entry points agree
+    for i in 0..n {
+        let vals = docs[i].query(&qs[i]);
+        let paths = docs[i].query_only_path(&qs[i]);
+        match (&baseline[i], vals, paths) {
+            (Ok(b), Ok(v), Ok(p)) => {
+                if b.len() != v.len() || b.len() != p.len()
+                    || !b.iter().zip(v.iter()).all(|(x, y)| x.0 == (*y as *const Value as usize))
+                    || !b.iter().zip(p.iter()).all(|(x, y)| &x.1 == y)
+                {
+                    return Ok(format!("DIFF\tentry points disagree on op {}", i));
+                }
+            }
+            (Err(_), Err(_), Err(_)) => {}
+            _ => return Ok(format!("DIFF\tentry points disagree (Ok/Err) on op {}", i)),
+        }
+    }
+    // sequential histories: permutations and repetitions
+    let mut state: u64 = seed.parse::<u64>().unwrap_or(1) | 1;
+    let mut next = move || {
+        state ^= state << 13;
+        state ^= state >> 7;
+        state ^= state << 17;
+        state
+    };
+    let perms = 40usize;
+    for _ in 0..perms {
+        let mut order: Vec<usize> = (0..n).collect();
+        for i in (1..n).rev() {
+            let j = (next() % (i as u64 + 1)) as usize;
+            order.swap(i, j);
+        }
+        for &i in order.iter().chain(order.iter().rev()) {
+            if observe(&docs[i], &qs[i]) != baseline[i] {
+                return Ok(format!("DIFF\tresult of op {} depends on the history", i));
+            }
+        }
+    }
+    // parsed once == parsed at every call
+    let mut prepared: Vec<Option<std::sync::Arc<JpQuery>>> = vec![];
+    for i in 0..n {
+        match parse_json_path(&qs[i]) {
+            Ok(q) => {
+                if observe_prepared(&docs[i], &q) != baseline[i] || observe_prepared(&docs[i], &q) != baseline[i] {
+                    return Ok(format!("DIFF\tprepared query differs on op {}", i));
+                }
+                prepared.push(Some(std::sync::Arc::new(q)));
+            }
+            Err(_) => {
+                if baseline[i].is_ok() {
+                    return Ok(format!("DIFF\tparse succeeded once and failed once on op {}", i));
+                }
+                prepared.push(None);
+            }
+        }
+    }
+    // many threads share each parsed query and each document
+    let threads = 16usize;
+    let iters = 60usize;
+    let baseline = std::sync::Arc::new(baseline);
+    let prepared = std::sync::Arc::new(prepared);
+    let docs = std::sync::Arc::new(docs);
+    let mut handles = vec![];
+    for t in 0..threads {
+        let (baseline, prepared, docs) = (baseline.clone(), prepared.clone(), docs.clone());
+        handles.push(std::thread::spawn(move || -> Option<usize> {
+            for it in 0..iters {
+                for k in 0..n {
+                    let i = (k * (t + 1) + it) % n;
+                    if let Some(q) = &prepared[i] {
+                        if observe_prepared(&docs[i], q) != baseline[i] {
+                            return Some(i);
+                        }
+                    }
+                }
+            }
+            None
+        }));
+    }
+    for h in handles {
+        match h.join() {
+            Ok(None) => {}
+            Ok(Some(i)) => return Ok(format!("DIFF\tconcurrent evaluation of op {} differs from the sequential one", i)),
+            Err(_) => return Ok("DIFF\ta worker thread panicked".to_string()),
+        }
+    }
+    for i in 0..n {
+        if *docs[i] != snapshot[i] {
+            return Ok(format!("DIFF\tdocument of op {} was changed", i));
+        }
+    }
+    Ok(format!("OK\tops={} perms={} threads={} iters={}", n, perms, threads, iters))
+}
+
 fn run_parse(query: &str) -> R<String> {
     let qs = cps_to_string(&sexp::parse(query)?)?;
     Ok(match parse_json_path(&qs) {
@@ -494,6 +678,8 @@ fn main() {
             ("EVAL", 4) => run_eval(f[2], f[3]),
             ("E2E", 4) => run_e2e(f[2], f[3]),
             ("PARSE", 3) => run_parse(f[2]),
+            ("REF", 5) => run_ref(f[2], f[3], f[4]),
+            ("HIST", 4) => run_hist(f[2], f[3]),
             ("GEN", 4) => second::run_gen(f[2], f[3]),
             _ => Err(format!("unknown case kind {}", f[0])),
         }));
